@@ -7,6 +7,7 @@
 Require Import Htp.Model.Base Htp.Model.MBstr Htp.Model.MUri Htp.Model.MConnTypes Htp.Model.MTxCommon Htp.Model.MReqLine Htp.Model.MResLine.
 Require Import Htp.Model.MTxReq Htp.Model.MReq Htp.Model.MRes Htp.Model.MConnp.
 Require Import Htp.Spec.SWire Htp.Proof.PWire Htp.Proof.PWireHdr Htp.Proof.PWireBlock Htp.Proof.PWireConn Htp.Proof.PWireEx Htp.Proof.PWireExch.
+Require Import Htp.Proof.PWireRun Htp.Proof.PWireGlue.
 
 (* ---- (1) request line: m SP u SP p, both line modes (generic / Apache NUL-terminated), allow_space_uri off ---- *)
 Theorem C02_reqline_roundtrip :
@@ -166,6 +167,41 @@ Proof. exact wr_host_tx. Qed.
 Print Assumptions C02_host_tx.
 
 (* ---- (8) the whole exchange ---- *)
+(* REQ_HEADERS over a block that lies in one chunk (one line per field): started at the first byte of the block with nothing
+   buffered and no header pending (wr_hst), the state function hands exactly the lines of the block, in order and unmodified, to the
+   header processor of transaction i (wr_block_tx = the fold of C02_header_block), consumes the block and its empty line, and
+   then signals the end of the headers (htp_tx_state_request_headers) *)
+Theorem C02_req_headers_run :
+  forall cb g fs c d pos i t n,
+    wr_hst c d pos i t -> forallb wr_field_ok fs = true -> wr_seg_at d pos (wr_block_wire fs ++ [CR; LF]) ->
+    exists K, REQ_HEADERS_loop cb g (length (wr_block_wire fs) + S n) c =
+              rq_with_tx (tx_state_request_headers cb) (rq_set_in K (tx_put c i (wr_block_tx fs t))) /\
+              wr_hst (rq_set_in K (tx_put c i (wr_block_tx fs t))) d (pos + length (wr_block_wire fs) + 2) i (wr_block_tx fs t) /\
+              (forall k, k_receiver_hook (K k) = k_receiver_hook k /\ k_receiver (K k) = k_receiver k).
+Proof. exact wr_req_headers_run. Qed.
+Print Assumptions C02_req_headers_run.
+
+(* PROVED for one request in one chunk: for every configuration with allow_space_uri off (every personality, both request-line
+   modes, any limits), every callback behaviour that answers HTP_OK, every well-formed request without body (wr_request_ok:
+   request line and header block of the grammar, repetition cap, no Content-Length / Transfer-Encoding field, method not CONNECT;
+   one line per field), htp_connp_open followed by ONE htp_connp_req_data call with the serialised request leaves exactly one
+   transaction, and it reports (wr_reported) method, method number, URI, protocol and number, is_protocol_0_9 = 0, the header table
+   wr_table of the fields (first-occurrence order, ", "-joined values, REPEATED flags) and request_progress = COMPLETE *)
+Theorem C02_exchange_fidelity_partial :
+  forall cb g r, wr_all_ok cb -> g_allow_space_uri g = false -> wr_request_ok r = true ->
+    exists t, c_txs (fst (cp_run cb g connp_new [OpOpen; OpReqData (wr_request_wire r)])) = [Some t] /\ wr_reported t r.
+Proof. exact wr_exchange_fidelity_partial. Qed.
+Print Assumptions C02_exchange_fidelity_partial.
+Example C02_exchange_premise_nonvacuous : wr_request_ok wr_ex_req = true.
+Proof. exact wr_ex_req_ok. Qed.
+Example C02_exchange_example :
+  match c_txs (fst (cp_run (script_lookup []) (cp_make_cfg 1 (Z.to_nat 18000) 512 false false 0) connp_new [OpOpen; OpReqData (wr_request_wire wr_ex_req)])) with
+  | [Some t] => t_request_headers t = [mkhdr [72;111;115;116]%N [97]%N 0; mkhdr [88;45;70;111;111]%N [97;32;98;44;32;99]%N c_HTP_FIELD_REPEATED]
+                /\ t_request_hostname t = Some [97]%N /\ t_request_progress t = c_HTP_REQUEST_COMPLETE
+  | _ => False
+  end.
+Proof. exact wr_ex_req_run. Qed.
+
 (* full statement (not proved): n pipelined well-formed requests, any segmentation: n transactions, each reporting its own fields *)
 Definition C02_exchange_fidelity_full : Prop := wr_exchange_fidelity_full.
 (* refuted as it stands: a request with an extension method directly after another request in the same chunk is swallowed as
